@@ -368,6 +368,34 @@ func main() {
 			})
 			e.Strs("asyncHandlerResponse", fields, "grpcV1.FetchAsyncSearchResult: the request passed down and the response literal")
 		}
+		if ga, err := r.Load("proxyapi/grpc_async_search.go"); err == nil {
+			if fd := ga.Func("grpcV1", "StartAsyncSearch"); fd != nil {
+				var lit, writes []string
+				ast.Inspect(fd.Body, func(n ast.Node) bool {
+					switch x := n.(type) {
+					case *ast.CompositeLit:
+						if strings.HasSuffix(ga.Render(x.Type), "search.AsyncRequest") {
+							for _, el := range x.Elts {
+								if kv, ok := el.(*ast.KeyValueExpr); ok {
+									lit = append(lit, ga.Render(kv.Key)+": "+ga.Render(kv.Value))
+								}
+							}
+						}
+					case *ast.AssignStmt:
+						for _, l := range x.Lhs {
+							if strings.HasPrefix(ga.Render(l), "aggs[") || strings.HasPrefix(ga.Render(l), "aggs.") {
+								writes = append(writes, ga.Render(x))
+							}
+						}
+					}
+					return true
+				})
+				e.Strs("asyncStartRequest", lit, "grpcV1.StartAsyncSearch: the search.AsyncRequest literal")
+				e.Strs("asyncStartAggWrites", writes, "grpcV1.StartAsyncSearch: statements that modify the converted aggregation queries")
+			} else {
+				e.Missing("asyncStartRequest", "handler StartAsyncSearch not found")
+			}
+		}
 		if pa2, err := r.Load("proxy/search/async.go"); err == nil {
 			if fd := pa2.Func("Ingestor", "FetchAsyncSearchResult"); fd != nil {
 				pag := false
